@@ -65,4 +65,9 @@ without arity guard transfers the whole argument list to the result. -/
 def coversAllArities (rows : List Row) (name : String) : Bool :=
   rows.any fun r => r.names.contains name && r.arity.isNone && r.transfers.contains (.allArgs, .result)
 
+/-- the known shape of F3: `min`/`max` transferred only under an exactly-two-operands guard. -/
+def pinnedMinMaxDefect (rows : List Row) : Bool :=
+  rows.any fun r => r.names.contains "min" && r.names.contains "max" && r.arity == some 2 &&
+    r.transfers.contains (.arg 0, .result) && r.transfers.contains (.arg 1, .result)
+
 end Argot.BuiltinTable
